@@ -6,15 +6,13 @@
 (* precondition (WellFormed), and has no naive node above 32 (C05).        *)
 (* One initial state per (variant, n).                                     *)
 (***************************************************************************)
-EXTENDS PlannerAvx, TLC
+EXTENDS PlannerAvx, Ops, TLC
 
 CONSTANTS NMax, Extra, Variants
 
-VARIABLES n, variant
+VARIABLES n, variant, verdict
 Lens == (0..NMax) \cup Extra
-Init == n \in Lens /\ variant \in Variants
-Next == UNCHANGED <<n, variant>>
-Spec == Init /\ [][Next]_<<n, variant>>
+Init == n \in Lens /\ variant \in Variants /\ verdict = "todo"
 
 PlanOf(v, len) == CASE v = "scalar" -> ScalarPlan(len)
                     [] v = "sse" -> SsePlan(len)
@@ -23,11 +21,16 @@ PlanOf(v, len) == CASE v = "scalar" -> ScalarPlan(len)
                     [] v = "avx32-noavx2" -> AvxPlan("f32", FALSE, len)
                     [] v = "avx64-noavx2" -> AvxPlan("f64", FALSE, len)
 
-PlanInv ==
+PlanOk ==
     LET t == PlanOf(variant, n) IN
     /\ ~HasPanic(t)
     /\ Known(t)
     /\ WellFormed(t)
     /\ TreeLen(t) = n
     /\ NoNaiveAbove32(t)
+    /\ variant = "scalar" /\ n >= 2 /\ n <= 65536 => OpBoundOk(n, TreeOps(t))       \* C05 work bound on the portable planner's design
+\* the evaluation happens in a transition: worker threads have the large stack the deep recursions (trial division) need
+Next == verdict = "todo" /\ verdict' = (IF PlanOk THEN "ok" ELSE "BAD") /\ UNCHANGED <<n, variant>>
+Spec == Init /\ [][Next]_<<n, variant, verdict>>
+PlanInv == verdict # "BAD"
 =============================================================================
